@@ -110,6 +110,11 @@ func merge[EntityT entity.Interface](def Definition, wrapper func(e *Entity) Ent
 			errors.Wrapf(err, "remote %s data is invalid", def.Typename).Error())
 	}
 
+	if remoteEntity.Id() != id {
+		return entity.NewMergeInvalidStatus(id,
+			fmt.Sprintf("remote %s id doesn't match its reference", def.Typename))
+	}
+
 	localRef := fmt.Sprintf("refs/%s/%s", def.Namespace, id.String())
 
 	// SCENARIO 1
